@@ -101,7 +101,7 @@ def run(tier, seed):
     sys.setrecursionlimit(3000)
     for i in range(n):
         rec = (i % 3 == 0)
-        spec = gen.random_spec(rng, recursive=rec, allow_inf=False, max_nt=3, max_dom=2 if rec else 3,
+        spec = gen.chain_spec(rng) if i % 6 == 3 else gen.random_spec(rng, recursive=rec, allow_inf=False, max_nt=3, max_dom=2 if rec else 3,
                                max_nodes=3 if rec else 4, max_edges=3 if rec else 4, linear=rng.choice([None, False]) if rec else None, dup_ext=False)
         spec["weights"] = {el: gen.nested_map(w, lambda v: v if v <= 1 else Fraction(1, 2)) for el, w in spec["weights"].items()}
         key = json.dumps(gen.spec_jsonable(spec), sort_keys=True); distinct.add(key)
